@@ -309,7 +309,7 @@ fn find_pre(tags: &[u8; N], len: usize, t: u8) -> Option<usize> {
 //@ prop=C39 tier=quick kind=hold
 //@ enc=OnExecuted::extend_competition_time (via verif_extend_competition_time)
 //@ bound=all i64 values of now, extension_duration, extension_cap; old end_time any i64 >= 0 (assumption: InitializeCompetition requires end > start > now, and the code computes `end_time - old_end_time` unchecked); any u128 volume; empty leaderboard
-//@ stubs=Clock::get returns the arbitrary unix_timestamp drawn by the harness (stubs::set_clock; slot fixed to 0, not read); alloc::fmt::format and sol_log (msg!) do nothing
+//@ stubs=Clock::get returns the arbitrary unix_timestamp drawn by the harness (stubs::set_clock; any slot); alloc::fmt::format and sol_log (msg!) do nothing
 //@ args=--default-unwind,34
 #[kani::proof]
 #[kani::stub(<anchor_lang::prelude::Clock as anchor_lang::prelude::SolanaSysvar>::get, crate::stubs::clock_get)]
@@ -317,7 +317,7 @@ fn find_pre(tags: &[u8; N], len: usize, t: u8) -> Option<usize> {
 #[kani::stub(anchor_lang::solana_program::log::sol_log, crate::stubs::sol_log)]
 fn c39_extension_never_earlier_never_past_cap() {
     let now: i64 = kani::any();
-    crate::stubs::set_clock(now, 0); // the slot is not read by the subject
+    crate::stubs::set_clock(now, kani::any());
     let mut comp = any_competition(Vec::new());
     kani::assume(comp.end_time >= 0);
     let (end0, start0, dur, cap) = (comp.end_time, comp.start_time, comp.extension_duration, comp.extension_cap);
